@@ -27,61 +27,65 @@ type uiSession struct {
 	Prog   int
 	Prefix []string
 	Line   lineTemplate
+	Height int // terminal height
 }
 
 func (s uiSession) String() string {
-	return fmt.Sprintf("%s %q then %q", uiPrograms()[s.Prog].Name, s.Prefix, s.Line.String())
+	return fmt.Sprintf("%s h=%d %q then %q", uiPrograms()[s.Prog].Name, s.Height, s.Prefix, s.Line.String())
 }
 
 func uiSessions(tier string) []uiSession {
 	var out []uiSession
 	sym := func(n int) string { return fmt.Sprintf("?%d", n) }
-	maxSym := 4
+	maxSym := 3
 	if tier == "thorough" {
-		maxSym = 6
+		maxSym = 5
 	}
-	// mode prefixes per program
 	type ctx struct {
 		prog   int
 		prefix []string
 		cmds   []string
+		full   bool // every template, not only the short list
+		height int
 	}
 	dis := []string{"down", "up", "move", "bounds", "find", "goto", "entrypoint", "alllines", "emulate", "quit", "help"}
 	emu := []string{"forward", "memories", "memory", "regmod", "quit", "help"}
 	mem := []string{"down", "up", "goto", "address", "quit", "help"}
-	var ctxs []ctx
-	for pi := range uiPrograms() {
-		ctxs = append(ctxs, ctx{pi, nil, dis})
+	ctxs := []ctx{
+		{0, nil, dis, true, 24},
+		{1, nil, dis, false, 24},
+		{2, nil, dis, false, 9},
+		{3, nil, dis, false, 40},
+		{1, []string{"m 1 2"}, dis, false, 24},                              // after an instruction move (accepted or not)
+		{2, []string{"m 0 6"}, dis, false, 24},                              // after a block move
+		{1, []string{"d 6"}, dis, false, 7},                                 // cursor near the end, small screen
+		{0, []string{"d 1", "e"}, emu, true, 24},                            // emulator, nothing executed
+		{0, []string{"d 1", "e", "s", "5"}, emu, false, 24},                 // after one step (x1 typed in)
+		{2, []string{"d 3", "e", "s", "5", "7"}, emu, false, 12},            // after add x3,x1,x2
+		{0, []string{"d 1", "e", "m memory"}, mem, true, 24},                // memory view of the program memory
+		{0, []string{"d 1", "e", "m nosuchmemory"}, mem, false, 24},         // memory view of a memory that does not exist
+		{3, []string{"d 2", "e", "s", "9", "4096", "m memory"}, mem, false, 10}, // after a store
 	}
-	ctxs = append(ctxs,
-		ctx{1, []string{"m 1 2"}, dis},                          // after a rejected or accepted instruction move
-		ctx{2, []string{"m 0 6"}, dis},                          // after a block move
-		ctx{0, []string{"d 1", "e"}, emu},                       // emulator, nothing executed
-		ctx{0, []string{"d 1", "e", "s", "5"}, emu},             // emulator after one step (x1 typed in)
-		ctx{2, []string{"d 3", "e", "s", "5", "s", "7"}, emu},   // two steps
-		ctx{0, []string{"d 1", "e", "m memory"}, mem},           // memory view of the program memory
-		ctx{0, []string{"d 1", "e", "m nosuchmemory"}, mem},     // memory view of a memory that does not exist
-		ctx{3, []string{"d 2", "e", "s", "9", "3", "m memory"}, mem}, // after a store
-	)
+	if tier == "thorough" {
+		for i := range ctxs {
+			ctxs[i].full = true
+		}
+	}
 	for _, cx := range ctxs {
-		// fully arbitrary short lines (spacing, empty pieces, short aliases)
-		if len(cx.prefix) == 0 && cx.prog < 2 || len(cx.prefix) > 0 {
-			for n := 0; n <= maxSym; n++ {
-				if n > 3 && len(cx.prefix) > 0 && tier != "thorough" {
-					continue
-				}
-				out = append(out, uiSession{cx.prog, cx.prefix, lineTemplate{sym(n)}})
-			}
+		add := func(t lineTemplate) { out = append(out, uiSession{cx.prog, cx.prefix, t, cx.height}) }
+		for n := 0; n <= maxSym; n++ {
+			add(lineTemplate{sym(n)})
 		}
 		for _, k := range cx.cmds {
-			out = append(out,
-				uiSession{cx.prog, cx.prefix, lineTemplate{k}},
-				uiSession{cx.prog, cx.prefix, lineTemplate{k, " ", sym(2)}},
-				uiSession{cx.prog, cx.prefix, lineTemplate{k, " ", sym(1), " ", sym(2)}},
-				uiSession{cx.prog, cx.prefix, lineTemplate{k, "  ", sym(1), " ", sym(1), " ", sym(1)}},
-				uiSession{cx.prog, cx.prefix, lineTemplate{k, " 9223372036854775807"}},
-				uiSession{cx.prog, cx.prefix, lineTemplate{k, " 1 9223372036854775808"}},
-			)
+			add(lineTemplate{k})
+			add(lineTemplate{k, " ", sym(2)})
+			add(lineTemplate{k, " ", sym(1), " ", sym(1)})
+			if cx.full {
+				add(lineTemplate{k, " ", sym(1), " ", sym(2)})
+				add(lineTemplate{k, "  ", sym(1), " ", sym(1), " ", sym(1)})
+				add(lineTemplate{k, " 9223372036854775807"})
+				add(lineTemplate{k, " 1 9223372036854775808"})
+			}
 		}
 	}
 	return out
@@ -137,22 +141,51 @@ func uiSessionUnits(c *Ctx, contract string, sessions []uiSession, mk func(us *U
 		us.Bounded = "console sessions of the corpus (line templates with arbitrary bytes)"
 		us.MaxPaths = 400000
 		world := &uiWorld{}
-		us.Prepare = func(p *sx.Path) { *world = *c.buildUIWorld(p, uiPrograms()[s.Prog], parser) }
-		us.CallHook = c.valueHook
-		us.Inputs = func(p *sx.Path, ev *spec.Eval, fn *ssa.Function) map[string]sx.Val {
-			c.installUIBuiltins(ev, world)
-			c.installStrBuiltins(ev)
+		us.Prepare = func(p *sx.Path) {
+			*world = *c.buildUIWorld(p, uiPrograms()[s.Prog], parser)
+			// the prefix of the session (concrete lines) is typed once
 			var script []sx.Str
 			for _, l := range s.Prefix {
 				script = append(script, sx.Str{S: l})
 			}
-			script = append(script, templateStr(s.Line, "line"))
 			p.Ghost["stdin"] = script
 			p.Ghost["stdin.stop"] = true
-			// a terminal of arbitrary height up to 64 lines
-			h := smt.Var("term.height", smt.BV(64))
-			p.Assume(smt.BVUle(h, smt.BVU(64, 64)))
-			p.Ghost["term.height"] = h
+			p.NoSafety = false // a panic while the prefix is typed is a violation too
+			func() {
+				defer func() {
+					if r := recover(); r != nil {
+						if e, ok := sx.IsPathEnd(r); ok {
+							if e != "stdin-exhausted" {
+								for _, o := range p.Obls {
+									if o.Cond.IsFalse() {
+										world.prefixPanic = append(world.prefixPanic, o)
+									}
+								}
+								if len(world.prefixPanic) == 0 {
+									world.prefixPanic = append(world.prefixPanic, sx.Obl{Name: "(*consoleui.UI).Run/session-prefix", Kind: "panic", Note: "the session prefix ends with: " + e})
+								}
+							}
+							return
+						}
+						panic(r)
+					}
+				}()
+				for len(p.Ghost["stdin"].([]sx.Str)) > 0 {
+					p.Call(c.Func("(*consoleui.UI).processCommand"), []sx.Val{world.ui}, nil, nil)
+				}
+			}()
+			p.NoSafety = true
+		}
+		us.CallHook = c.valueHook
+		us.Inputs = func(p *sx.Path, ev *spec.Eval, fn *ssa.Function) map[string]sx.Val {
+			c.installUIBuiltins(ev, world)
+			c.installStrBuiltins(ev)
+			for _, o := range world.prefixPanic {
+				p.Assert(o.Name, o.Kind, smt.False, o.Pos, o.Note+" (while the session prefix is typed)")
+			}
+			p.Ghost["stdin"] = []sx.Str{templateStr(s.Line, "line")}
+			p.Ghost["stdin.stop"] = true
+			p.Ghost["term.height"] = smt.BVU(uint64(s.Height), 64)
 			env := c.leafEnv(p)
 			env.BigLimit = 0
 			p.Ghost["env"] = env
@@ -170,11 +203,11 @@ func init() {
 		Level:     "other",
 		Technique: "contract-based deductive verification (safety obligations: index, slice, nil, type assertion, division, allocation, explicit panic) of the real console UI executed on scripted sessions whose last line contains arbitrary bytes; currently bounded in the session corpus",
 		MinObls:   2000,
-		Claim:     "UI.Run is executed on the real UI, mode, view, code-model, emulator and memory objects for every session of the corpus: a concrete prefix of lines that reaches a mode and state (disassembler, after instruction and block moves; emulator before and after steps; memory view of an existing and of a missing memory), followed by one line made of literal command words and runs of arbitrary bytes (every command of the mode with 0-3 arguments of arbitrary bytes, surplus arguments, doubled spaces, numbers at the ends of the int range) or of arbitrary bytes only, on a terminal of arbitrary height up to 64 lines. No index, slice, nil-dereference, nil-function call, type assertion, division, allocation or explicit panic obligation may be reachable; the screen is re-rendered after the line.",
+		Claim:     "UI.Run is executed on the real UI, mode, view, code-model, emulator and memory objects for every session of the corpus: a concrete prefix of lines that reaches a mode and state (disassembler, after instruction and block moves; emulator before and after steps; memory view of an existing and of a missing memory), followed by one line made of literal command words and runs of arbitrary bytes (every command of the mode with 0-3 arguments of arbitrary bytes, surplus arguments, doubled spaces, numbers at the ends of the int range) or of arbitrary bytes only, on terminals of several heights (arbitrary heights are the subject of C24). No index, slice, nil-dereference, nil-function call, type assertion, division, allocation or explicit panic obligation may be reachable; the screen is re-rendered after the line.",
 		Note:      "bounded stand-in: sessions of the corpus; the bytes of the last line are symbolic (all parse outcomes of strings.Split, the command map, strconv.Atoi, the address and value parsers are explored). Commands reading further input end the path at the end of the script. I/O errors and resource exhaustion are not modelled.",
 		Assumptions: []string{
 			"bounded: console sessions of the corpus (4 programs; prefixes of at most 6 lines; one line with at most 4, thorough 6, arbitrary bytes)",
-			"terminal.GetSize returns an error or an arbitrary size (height at most 64); regexp.CompilePOSIX fails or succeeds arbitrarily and MatchString is an arbitrary predicate of the text; strings.Split, strings.Join, strings.Repeat, strings.Builder, strconv and math/big behave as documented (assumed contracts)",
+			"terminal.GetSize returns an error or the height of the session; regexp.CompilePOSIX fails or succeeds arbitrarily and MatchString is an arbitrary predicate of the text; strings.Split, strings.Join, strings.Repeat, strings.Builder, strconv and math/big behave as documented (assumed contracts)",
 			"the floating-point window computation int(math.Floor(float64(n)/(math.Phi+1))) is evaluated in 80-bit fixed point (exact for 0 <= n < 2^31)",
 			"calls of expreval.* are replaced by their contracts (C10), expr.ConstUint by its contract (C27)",
 			"symbolic strings are ranged over byte-wise (bytes below 0x80 assumed where a string is ranged over rune by rune)",
